@@ -2,6 +2,7 @@
 CONSTANTS
   Snaps <- MCSnaps2
   MaxChanges = 3
+  WithPartial = TRUE
 INIT Init
 NEXT Next
 CHECK_DEADLOCK FALSE
